@@ -4,44 +4,39 @@
    called, and again whenever an ACKNACK has been accepted; `npend s` counts the parked callers;
    `delivered s`: the reliable matched reader (if it still exists) has been given every change the
    writer holds and that is relevant for it. *)
-From DustDDS Require Import Base.Machine Proto.RelModel Proto.RelProofs Proto.RelSound Proto.RelLive Proto.RelAck Proto.RelWitness.
+From DustDDS Require Import Base.Machine Proto.RelModel Proto.RelProofs Proto.RelSound Proto.RelSoundG Proto.RelLive Proto.RelAck Proto.RelWitness.
 Open Scope Z_scope.
 
-(* SOUNDNESS for KEEP_ALL writers (no removal from the history cache): for every schedule — any
-   faults, fragmented samples included, late joiners, VOLATILE or TRANSIENT_LOCAL — whenever the test
-   succeeds, delivery has happened. *)
-Theorem C03_wfa_sound_immediate :
-  forall cf sched, depth cf = 0 -> forallb not_remove sched = true ->
-    let s := run cf init sched in ackd s = true -> delivered s.
-Proof. exact wfa_sound_immediate. Qed.
+(* SOUNDNESS, unbounded: every configuration (KEEP_ALL or KEEP_LAST, any number of instances, any
+   durability) and EVERY schedule - any faults, fragmented samples, removals from the history cache, late
+   joiners, deletions: whenever the test succeeds, delivery has happened.  (Former finding C03-gap-skip-ack,
+   repaired by 91937ff.) *)
+Theorem C03_wfa_sound :
+  forall cf sched, let s := run cf init sched in ackd s = true -> delivered s.
+Proof. exact wfa_sound. Qed.
 
-(* ... and a caller parked earlier is only answered (while an ACKNACK is processed) when, at the end of
-   that step, delivery has happened *)
+(* ... and a caller parked earlier is only answered (while an ACKNACK is processed or the reader proxy is
+   removed) when, at the end of that step, delivery has happened *)
 Theorem C03_wfa_sound_notified :
-  forall cf sched a, depth cf = 0 -> forallb not_remove (sched ++ [a]) = true ->
+  forall cf sched a,
     let s := run cf init sched in let s' := fst (step cf s a) in
     (npend s' < npend s)%nat -> delivered s'.
-Proof. exact wfa_sound_notified. Qed.
+Proof. exact wfa_sound_answered. Qed.
 
-(* the statement at full strength (every history QoS) is FALSE on the faithful model (known finding
-   C03-gap-skip-ack): KEEP_LAST(1), two instances, history {1,3}, DATA(1) lost, GAP(2) delivered:
-   the reader acknowledges up to 3 without ever having received sample 1 *)
-Definition C03_wfa_sound_statement : Prop :=
-  forall cf sched, let s := run cf init sched in ackd s = true -> delivered s.
-Theorem C03_wfa_sound_refuted_gap_skip : ~ C03_wfa_sound_statement.
-Proof. exact wfa_sound_full_refuted. Qed.
+(* NO STALE WAITER, unbounded: every configuration and EVERY schedule: whenever the acknowledgement test
+   holds, nobody is parked in wait_for_acknowledgments - the wait list is re-evaluated at every point where
+   the test can become true.  (Former finding C03-stale-waiter, repaired by 66b3297.) *)
+Theorem C03_wfa_no_stale_waiter :
+  forall cf sched, let s := run cf init sched in ackd s = true -> npend s = 0%nat.
+Proof. exact wfa_no_stale_waiter. Qed.
 
-(* COMPLETION at full strength — after the healing rounds every parked caller has been answered — is
-   FALSE (known finding C03-stale-waiter): when the matched reader is deleted (delete_datareader on the
-   peer, or deletion of its participant) the RTPS reader proxy is removed, so nobody will ever send an
-   ACKNACK again, and the wait list is only re-evaluated when an ACKNACK is accepted: a caller parked
-   before the deletion is never answered although a fresh call succeeds at once *)
-Definition C03_wfa_completes_statement : Prop :=
-  forall cf sched k, (rounds_needed sched <= k)%nat -> npend (run cf init (sched ++ heal k)) = 0%nat.
-Theorem C03_wfa_completes_refuted_stale_waiter : ~ C03_wfa_completes_statement.
-Proof. exact wfa_completes_full_refuted. Qed.
+(* COMPLETION after deletion: once the reader proxy is gone (delete_datareader on the peer, or deletion of
+   its participant, at any point of any schedule) every caller has been answered *)
+Theorem C03_wfa_completes_after_deletion :
+  forall cf sched, let s := run cf init sched in s_rp s = None -> npend s = 0%nat.
+Proof. exact wfa_completes_after_deletion. Qed.
 
-(* COMPLETION, the proved part (stage 1): KEEP_ALL writer, unfragmented samples, schedules without removal
+(* COMPLETION while the reader stays matched, the proved part (stage 1): KEEP_ALL writer, unfragmented samples, schedules without removal
    from the history cache and without deletion of the reader (all loss / duplication / reordering / delay
    patterns, late joiners), at most 256 samples, at least one sample relevant for the reader: after k + 1
    healing rounds that drain the network and one more healing round that drains it, for a matched RELIABLE
@@ -58,16 +53,20 @@ Theorem C03_wfa_completes_partial :
       ackd s2 = true /\ npend s2 = 0%nat.
 Proof. exact wfa_completes_unfragmented. Qed.
 
-Theorem C03_stale_waiter_witness_reader :
+(* the schedules that exposed C03-stale-waiter, on the repaired code (replayed on the real stack by the corpus) *)
+Theorem C03_stale_waiter_repaired_reader :
+  let s0 := run cf_plain init [AMatch true false; AWrite 1 24 11; ADrop 0; AWfa] in
   let s := run cf_plain init (sched_stale ADelReader) in
-  s_rp s = None /\ s_dcps s = false /\ s_net s = [] /\
-  snd (step cf_plain s AWfaPoll) = OPoll [1] /\ snd (step cf_plain s AWfa) = OCode 0.
-Proof. exact stale_waiter_witness_reader. Qed.
-Theorem C03_stale_waiter_witness_participant :
+  npend s0 = 1%nat /\ s_rp s = None /\ s_dcps s = false /\ npend s = 0%nat /\
+  snd (step cf_plain s AWfaPoll) = OPoll [0] /\ snd (step cf_plain s AWfa) = OCode 0.
+Proof. exact stale_waiter_repaired_reader. Qed.
+
+Theorem C03_stale_waiter_repaired_participant :
+  let s0 := run cf_plain init [AMatch true false; AWrite 1 24 11; ADrop 0; AWfa] in
   let s := run cf_plain init (sched_stale ADelPart) in
-  s_rp s = None /\ s_dcps s = false /\ s_net s = [] /\
-  snd (step cf_plain s AWfaPoll) = OPoll [1] /\ snd (step cf_plain s AWfa) = OCode 0.
-Proof. exact stale_waiter_witness_participant. Qed.
+  npend s0 = 1%nat /\ s_rp s = None /\ s_dcps s = false /\ npend s = 0%nat /\
+  snd (step cf_plain s AWfaPoll) = OPoll [0] /\ snd (step cf_plain s AWfa) = OCode 0.
+Proof. exact stale_waiter_repaired_participant. Qed.
 
 (* non-vacuity: a parked caller is answered by the healing round that repairs a lost DATA *)
 Example C03_nonvacuous :
@@ -76,10 +75,10 @@ Example C03_nonvacuous :
   presented s = s_log s /\ s_net s = [] /\ length (s_log s) = 3%nat /\ snd (step cf_small s AWfaPoll) = OPoll [0].
 Proof. exact heal_example_unfragmented. Qed.
 
-Print Assumptions C03_wfa_sound_immediate.
+Print Assumptions C03_wfa_sound.
 Print Assumptions C03_wfa_sound_notified.
-Print Assumptions C03_wfa_sound_refuted_gap_skip.
-Print Assumptions C03_wfa_completes_refuted_stale_waiter.
+Print Assumptions C03_wfa_no_stale_waiter.
+Print Assumptions C03_wfa_completes_after_deletion.
 Print Assumptions C03_wfa_completes_partial.
-Print Assumptions C03_stale_waiter_witness_reader.
-Print Assumptions C03_stale_waiter_witness_participant.
+Print Assumptions C03_stale_waiter_repaired_reader.
+Print Assumptions C03_stale_waiter_repaired_participant.
